@@ -83,6 +83,9 @@ func childPrefixes(thorough bool) []shape {
 		{Name: "spawn-looping-child", Src: "spawn(func() { for { tick() } })\n"},
 		{Name: "fnspawn-looping-child", Src: "func lp() { for { tick() } }\nlp.spawn()\n"},
 		{Name: "spawn-blocked-child", Src: "spawn(func() { c := chan()\n <-c })\n"},
+		// the spawned callable is a builtin that carries the script callback
+		{Name: "spawn-builtin-with-looping-callback", Src: "ll := [1]\nspawn(ll.each, func(x) { for { tick() } })\n"},
+		{Name: "go-builtin-with-looping-callback", Src: "ll := [1]\ngo ll.map(func(x) { for { tick() } })\n"},
 		{Name: "nested-2", Src: "spawn(func() { spawn(func() { for { tick() } })\n for { tick() } })\n"},
 	}
 	if thorough {
